@@ -43,22 +43,22 @@ CLAIMED = {
    text="in every explored state of the lifecycle / multi-auction / poor-bidder scenarios every message type is delivered with one field at a time (thorough: every pair) replaced by invalid and boundary values; every decision is compared in both directions with a reference written from the message rules, every rejection with an unchanged store dump, balances and community pool at the transaction boundary",
    note=TRUST + "; interpretation I5 (where the documents are silent the reference follows ValidateBasic + the named guards); MsgAddAllowedBidder is decided by C10"),
  "C19": dict(cat="model_checking", tech=MC + " + run-wide non-interference table (differential oracle between states that agree on one auction)", ref="DESIGN.md §5 C19",
-   text="histories over 2-3 concurrent auctions sharing auctioneer, bidders and denominations (crossed and twin), failed operations included: byte-level frame condition for every non-target auction around every transition, agreed terms before/after, id assignment, pairwise distinct escrow addresses, and a table keyed by (projection of X, actor balances, params, time, op) that flags different outcomes when only other auctions differ",
+   text="histories over 2-3 concurrent auctions sharing auctioneer, bidders and denominations (crossed and twin), failed operations included: byte-level frame condition for every non-target auction around every transition, agreed terms before/after, id assignment, pairwise distinct escrow addresses, a table keyed by (projection of X, affordability class of the actor's balances, params, time, op) that flags different outcomes when only other auctions differ, and 40 direct keeper creations failing at a listener veto / bank transfer (writes kept or rolled back) followed by another creation (no id reused, no record overwritten, new escrow exact)",
    note=TRUST + "; at most 3 concurrent auctions"),
  "C15": dict(cat="model_checking", tech=MC + " + lock-step differential continuation of original and re-imported state", ref="DESIGN.md §5 C15",
    text="at every distinct module state of the multi-auction, early-release batch and fixed lifecycle scenarios: ExportGenesis -> JSON -> Validate -> InitGenesis into the wiped store -> byte comparison of the seven collections -> lock-step continuation over every single menu op, every pair (thorough: triple) of later block instants and bid-then-block sequences",
    note=TRUST + "; interpretation I7 (same state = the seven collections named by the statement; the rest is judged through identical evolution); bank balances are carried over as they are (the bank module's own genesis is trusted)"),
  "C16": dict(cat="model_checking", tech=MC + " with a per-state query alphabet against a reference filter over the raw store dump", ref="DESIGN.md §5 C16",
-   text="is_matched flags vs contribution to the bidder's receipt and published matched price vs clearing price at every settlement (extended rounds with outbid provisional winners included), released flags vs payments, results frozen after settlement; in every distinct state of the query scenarios every by-id and list query with every filter combination and three pagination modes is compared with the stored objects",
+   text="is_matched flags vs contribution to the bidder's receipt and published matched price vs clearing price at every settlement (extended rounds with outbid provisional winners included), released flags vs payments, results frozen after settlement; in every distinct state of the query scenarios every by-id and list query with every filter combination (every ParseBool spelling of is_matched) and four pagination modes (unlimited+total, key continuation, offset, reverse) is compared with the stored objects",
    note=TRUST + "; interpretation I6 (a bid received coins iff it contributed under price-then-id priority and its bidder received coins); two listed known findings (ListAllowedBidder / ListVestingQueue ignore auction_id) cannot be repaired without failing the repository's own unedited tests"),
  "C10": dict(cat="model_checking", tech=MC + "; the message is in the menu of every state of a process that links the application like the node binary does", ref="DESIGN.md §5 C10",
-   text="MsgAddAllowedBidder signed by each bidder and an outsider is delivered through the application's message router in every explored state of the fixed / batch / multi-auction lifecycle scenarios and must be rejected with the allow-list byte-identical; no other message changes the allow-list; every accepted bid's signer is listed in the pre-state and every stored bid's bidder is listed in every state; in addition the message, really signed by the would-be bidder, is delivered through InitChain/FinalizeBlock/Commit in ten situations and must be refused by the node",
+   text="MsgAddAllowedBidder signed by each bidder, an outsider and the auctioneers is delivered through the application's message router in every explored state of the fixed / batch / multi-auction lifecycle scenarios and must be rejected with the allow-list byte-identical; no other message changes the allow-list; every accepted bid's signer is listed in the pre-state and every stored bid's bidder is listed in every state; in addition the message, really signed by the would-be bidder, is delivered through InitChain/FinalizeBlock/Commit in ten situations and must be refused by the node",
    note=TRUST + "; configuration covered: the import graph of cmd/fundraisingd (app + cmd packages, nothing from testutil/simulation imported by the harness itself); the -X link flag documented for testing builds is by definition out of scope"),
  "C17": dict(cat="fault_enumeration", tech="exhaustive enumeration of (operation, pre-state) x listeners x failing position x failing hook x registration path on the real keeper with recording / vetoing listeners", ref="DESIGN.md §5 C17",
    text="all 426 cases of the product are executed on a second real keeper over the application's own store: exact call sequence, arguments vs message / committed record / real transfers, announced record not yet visible to the listener, veto => wrapped error and nothing committed at the transaction boundary, settlement veto reported by the block hook",
    note=TRUST + "; depinject wiring inside app.New is not exercised (no provider can be added from outside); at most 3 listeners; interpretation I4"),
  "C14": dict(cat="exploration", tech="schedule exploration (iterative deviation bounding) over the iteration order of every map range, owned through a type-directed build-time -overlay rewrite", ref="DESIGN.md §4, §5 C14",
-   text="every map range / maps.Keys call of the module is rewritten (overlay, /repo untouched) to take its key order from a scheduler; for each history of the catalogue (2-3 bidder settlements of fixed and batch auctions, an extended round, two auctions settling in one block, listener registration; thorough: 4 bidders) every schedule with <=2 (thorough <=3) ranges off the canonical order, each trying all permutations, must give byte-identical ordered events, store dump and balances; canonical digests are compared across worker processes",
+   text="every map range / maps.Keys call of the module is rewritten (overlay, /repo untouched) to take its key order from a scheduler; for each history of the catalogue (2-3 bidder settlements of fixed and batch auctions, an extended round, auctions in different statuses acting in one block, creations without start time, a list-valued allow-list call with a refused entry whose partial writes are kept, listener registration; thorough: 4 bidders) every schedule with <=2 (thorough <=3) ranges off the canonical order, each trying all permutations, must give byte-identical ordered events, store dump and balances; canonical digests are compared across worker processes",
    note=TRUST + "; a new map range is picked up automatically, a form the rewriter cannot own fails the check loudly; containers inside the SDK are out of scope"),
  "C20": dict(cat="exploration", tech="exhaustive walk of the built binary's command tree + resolution of every AutoCLI binding against the registered descriptors + sentinel round-trip of every tx argument (+ one-node chain in the thorough tier)", ref="DESIGN.md §5 C20",
    text="the default node binary is built from the working tree and must start; every command option is resolved against the protobuf descriptors the way AutoCLI does; every node of `query|tx fundraising` answers --help; every custom-bound tx leaf is generated offline with one sentinel per argument and the JSON compared field by field; every query RPC's real answer is rendered with AutoCLI's encoder; thorough: a loopback one-node chain from an explorer-exported genesis produces blocks and answers every query leaf",
